@@ -56,6 +56,21 @@ Ltac first_noncanon2 l k :=
 Ltac py_canon_refl2 :=
   lazymatch goal with |- ?l = _ => is_canon2 l end; reflexivity.
 
+(* bottom-up evaluation of closed arithmetic: an application of a generated operator wrapper
+   (or any binary function into values) to two numeric VALUES is replaced by its value.  The
+   weak-head strategy alone re-normalises the whole nested expression at every step. *)
+Ltac arith_eval t :=
+  let H := fresh "Hev" in
+  eassert (H : t = _) by (C17_whnf.whnf_lhsL; expose_R; py_canon_refl2);
+  rewrite H; clear H.
+Ltac arith_step :=
+  match goal with
+  | |- context [?g (VFloat ?a) (VFloat ?b)] => arith_eval (g (VFloat a) (VFloat b))
+  | |- context [?g (VInt ?a) (VFloat ?b)] => arith_eval (g (VInt a) (VFloat b))
+  | |- context [?g (VFloat ?a) (VInt ?b)] => arith_eval (g (VFloat a) (VInt b))
+  end.
+Ltac inner_eval := repeat arith_step.
+
 (* [pyrun2 tac idx hook]: tac decides real comparisons, idx rewrites
    [py_getitem O (canonical) (canonical)] on a symbolic list (may fail), hook handles any other
    stuck head term (may fail) *)
@@ -74,17 +89,17 @@ Ltac pyrun2 tac idx hook :=
             end
           else
             let H := fresh "Hev" in
-            eassert (H : e = _) by (pyrun2 tac idx hook; py_canon_refl2);
+            eassert (H : e = _) by (inner_eval; pyrun2 tac idx hook; py_canon_refl2);
             rewrite H; clear H
       | VTuple ?xs => first_noncanon2 xs ltac:(fun x =>
             let H := fresh "Hev" in
-            eassert (H : x = _) by (pyrun2 tac idx hook; py_canon_refl2); rewrite H; clear H)
+            eassert (H : x = _) by (inner_eval; pyrun2 tac idx hook; py_canon_refl2); rewrite H; clear H)
       | VList ?xs => first_noncanon2 xs ltac:(fun x =>
             let H := fresh "Hev" in
-            eassert (H : x = _) by (pyrun2 tac idx hook; py_canon_refl2); rewrite H; clear H)
+            eassert (H : x = _) by (inner_eval; pyrun2 tac idx hook; py_canon_refl2); rewrite H; clear H)
       | VObj _ ?xs => first_noncanon2 xs ltac:(fun x =>
             let H := fresh "Hev" in
-            eassert (H : x = _) by (pyrun2 tac idx hook; py_canon_refl2); rewrite H; clear H)
+            eassert (H : x = _) by (inner_eval; pyrun2 tac idx hook; py_canon_refl2); rewrite H; clear H)
       | _ =>
           C17_whnf.pose_stuckL;
           lazymatch goal with
@@ -93,7 +108,7 @@ Ltac pyrun2 tac idx hook :=
               lazymatch s with
               | bind ?e ?k =>
                   let H := fresh "Hev" in
-                  eassert (H : bind e k = _) by (pyrun2 tac idx hook; py_canon_refl2);
+                  eassert (H : bind e k = _) by (inner_eval; pyrun2 tac idx hook; py_canon_refl2);
                   rewrite H; clear H
               | Rltb _ _ => py_decide_at s tac
               | Rleb _ _ => py_decide_at s tac
@@ -104,10 +119,10 @@ Ltac pyrun2 tac idx hook :=
                       first [ idx | rewrite (py_getitem_unfold O a b); unfold py_getitem_body ]
                     else
                       (let H := fresh "Hev" in
-                       eassert (H : b = _) by (pyrun2 tac idx hook; py_canon_refl2); rewrite H; clear H)
+                       eassert (H : b = _) by (inner_eval; pyrun2 tac idx hook; py_canon_refl2); rewrite H; clear H)
                   else
                     (let H := fresh "Hev" in
-                     eassert (H : a = _) by (pyrun2 tac idx hook; py_canon_refl2); rewrite H; clear H)
+                     eassert (H : a = _) by (inner_eval; pyrun2 tac idx hook; py_canon_refl2); rewrite H; clear H)
               | _ => first [ hook s | idtac "pyrun2: stuck on" s; fail 1 ]
               end
           end
